@@ -1,11 +1,12 @@
 SPECIFICATION Spec
 CONSTANTS
   Universe = "events"
-  MaxTotal = 4
+  MaxTotal = 3
   MaxSide = 2
+  Rich = TRUE
   Matcher = "positive"
   ClipAlg = "fixed"
-  ExportAt = "filter"
+  ExportAt = "next"
 CONSTRAINT Export
 INVARIANT ImplReturns
 INVARIANT ImplClips
